@@ -110,6 +110,20 @@ CHECKS = {
                   'bounded: from_actions replay, to_matrix/from_matrix round trip, trials, per-height interleavings on random competition prefixes.',
              note=_TB + ' from_matrix/to_matrix and the interleaving clause are bounded only (labelled).',
              technique='contract-based deductive verification (log exactness + determinism per method) + bounded stand-in (replay, card round trip, schedules)'),
+ 'C07': dict(category='other',
+             text='Symbolic: the five helper normalisers on shape-typed strings of their pattern group (every digit content, every whitespace '
+                  'character): value preserved, canonical result language, idempotent (z3). Bounded: on the language of the general pattern '
+                  'enumerated from its syntax tree (108 k codes) and each code\'s case/space/suffix/trailing-zero variants: normal form accepted, '
+                  'whitespace-free, stable, same families, equal across variants; near-miss strings refused with ValueError. One known finding '
+                  '(timed family patterns disagree on spelling).',
+             note=_TB + ' The language part is enumeration (bounded in repeat counts), labelled so.',
+             technique='contract-based deductive verification of the helpers (symbolic strings -> LIA -> z3) + run-time contracts on the enumerated pattern language (bounded)'),
+ 'C10': dict(category='other',
+             text='Deductive: regular-language inclusions over all strings (z3): the classifier chain of event_code_to_kind covers the accepted '
+                  'language; every accepted field code has a position in FIELD_SORT_ORDER. Bounded: run-time contracts of the seven functions on '
+                  'the enumerated language (no exception, key shape, group by family, distance component, text key order, sorter, relay distance).',
+             note=_TB + ' Readings: relays ordered by leg distance; SC/SH/LH and NNNNSC sort with the hurdles.',
+             technique='regular-language obligations (z3) generated from the imported patterns/lists + run-time contracts on the enumerated pattern language (bounded)'),
 }
 _NYB = 'check not built yet in this build round (planned, see DESIGN.md §5); no claim is made'
-NOT_APPLICABLE = {p: _NYB for p in ['C07','C10','C12','C16','C18']}
+NOT_APPLICABLE = {p: _NYB for p in ['C12','C16','C18']}
